@@ -16,7 +16,7 @@ META = {
     "outside": "indices above 999; names the parser cannot produce",
     "assumptions": ["name grammar: field key + one '_' + zero-padded (>=2 digits) decimal index per nesting level"],
 }
-WALL_BUDGET = {"quick": 480, "thorough": 3000}
+WALL_BUDGET = {"quick": 900, "thorough": 3000}
 
 
 def templates():
